@@ -17,9 +17,12 @@ var KeyLens = []int{0, 1, 10, 19, 20, 21, 32, 63, 64, 65, 127, 128, 129, 200}
 func Key() *rapid.Generator[[]byte] {
 	return rapid.Custom(func(t *rapid.T) []byte {
 		var n int
-		if rapid.IntRange(0, 2).Draw(t, "keyLenKind") == 0 {
+		switch k := rapid.IntRange(0, 29).Draw(t, "keyLenKind"); {
+		case k == 0: // far longer than any block size
+			n = rapid.SampledFrom([]int{257, 512, 1000, 1024, 4096}).Draw(t, "keyLenBig")
+		case k < 10:
 			n = rapid.IntRange(0, 256).Draw(t, "keyLen")
-		} else {
+		default:
 			n = rapid.SampledFrom(KeyLens).Draw(t, "keyLenB")
 		}
 		switch rapid.IntRange(0, 5).Draw(t, "keyFill") {
